@@ -45,7 +45,7 @@ def nr_method(eqn: nAE,
     stats.nfeval += 1
 
     # main loop
-    while np.max(np.abs(df)) > tol:
+    while np.max(np.abs(df)) > tol or stats.nstep < opt.min_it:
 
         if stats.nstep > opt.max_it:
             print(f"Cannot converge within 100 iterations. Deviation: {np.max(np.abs(df))}!")
